@@ -152,20 +152,53 @@ class SymCtx:
     if not core.is_sym(a) and not core.is_sym(b) and not isinstance(a, z3.ExprRef) and not isinstance(b, z3.ExprRef):
       # two numbers computed in float64 by the code / the oracle: compare as the concrete mode would
       fa, fb = float(a), float(b)
+      if math.isnan(fa) or math.isnan(fb):
+        return z3.BoolVal(math.isnan(fa) and math.isnan(fb))
+      if math.isinf(fa) or math.isinf(fb):
+        return z3.BoolVal(fa == fb)
       t_ = 1e-9 if tol is None else tol
       return z3.BoolVal(bool(fa == fb or abs(fa - fb) <= t_ * (1.0 + max(abs(fa), abs(fb)))))
+    sp = self._special(a, b, 'eq')
+    if sp is not None:
+      return sp
     ta, tb = core._coerce(_t(a), _t(b))
     return ta == tb
 
+  @staticmethod
+  def _special(a, b, op):
+    """IEEE semantics when one side is a concrete NaN / infinity produced by the code (the other side may be symbolic: a real)"""
+    na, nb = core.is_nan(a), core.is_nan(b)
+    if na or nb:
+      return z3.BoolVal(op == 'ne' if not (na and nb and op == 'eq') else True) if op in ('eq', 'ne') else z3.BoolVal(False)
+    ia, ib = core.is_inf(a), core.is_inf(b)
+    if not (ia or ib):
+      return None
+    fa = float(a) if ia else None
+    fb = float(b) if ib else None
+    if ia and ib:
+      return z3.BoolVal({'eq': fa == fb, 'ne': fa != fb, 'le': fa <= fb, 'lt': fa < fb}[op])
+    if ia:      # +-inf against a finite value
+      return z3.BoolVal({'eq': False, 'ne': True, 'le': fa < 0, 'lt': fa < 0}[op])
+    return z3.BoolVal({'eq': False, 'ne': True, 'le': fb > 0, 'lt': fb > 0}[op])
+
   def ne(self, a, b, tol=None):
+    sp = self._special(a, b, 'ne')
+    if sp is not None:
+      return sp
     ta, tb = core._coerce(_t(a), _t(b))
     return ta != tb
 
   def le(self, a, b, tol=None):
+    sp = self._special(a, b, 'le')
+    if sp is not None:
+      return sp
     ta, tb = core._coerce(_t(a), _t(b))
     return ta <= tb
 
   def lt(self, a, b, tol=None):
+    sp = self._special(a, b, 'lt')
+    if sp is not None:
+      return sp
     ta, tb = core._coerce(_t(a), _t(b))
     return ta < tb
 
